@@ -11,7 +11,13 @@ ENTRY = dict(
             "aligned pair); `join_split`, `split_join`, `decode_encode`, `encode_decode`, `decode_shape` for the bitmap codec; `commit_payload` "
             "(after ANY edit sequence the payload is [1, index, switch, parameter] ++ encoding, Sunday first, of the received table with exactly the "
             "edits addressed to that schedule applied), `edit_rows`, `commit_unedited`, `slot_layout`/`holds_commit` (bit-level layout of the payload); "
-            "`schedule_table`, `schedule_parameter_names` re-prove the name tables read from today's source. The model is tied to the code by an "
+            "`last_response_wins` (the same from ANY prior device state: the last response for a schedule replaces what was held), "
+            "`edit_slot`/`edit_table_slots`/`holds_commit_slots` (for whole lists of aligned edits every transmitted slot is the RECEIVED slot with the "
+            "edits applied, judged by the statement-level C18.specCommit/expectedSlot); the write queue: `commit_then_drain`, `commit_snapshot_partial` "
+            "(responses and edits of other schedules between commit() and the write do not change what is sent), `commit_live_witness` and "
+            "`commit_snapshot_full_false` (finding F6: the full statement 'the week at commit time is what is sent' is false, the request holds the "
+            "live Schedule object); `set_never_index_error_48` / `set_partial_on_short_day` (errors are inert on 48-slot days; a shorter hand-made day is "
+            "edited partially before IndexError); `schedule_table`, `schedule_parameter_names` re-prove the name tables read from today's source. The model is tied to the code by an "
             "exhaustive run over all 48x48 aligned pairs x 4 states x day patterns, malformed states/times, non-aligned minutes, and by feeding "
             "SchedulesResponse payloads to a real EcoMAX, editing through its Schedule objects and comparing the queued SetScheduleRequest payload."),
         level_note="Trusted: Lean kernel; time-string parsing is datetime.strptime's (the model receives its (hour, minute) result or 'unparsable'); model <-> code tie is differential; asyncio dispatch exercised under the virtual loop.",
@@ -19,13 +25,16 @@ ENTRY = dict(
             "set_state changes exactly the slots start..end (end 00:00 = last slot), sets them to the state, keeps 48 slots": "theorem",
             "invalid state / unparsable time / end not after start raises ValueError and changes nothing": "theorem (model) + correspondence (exception class of the implementation)",
             "join/split and decode/encode are mutually inverse; decoding and re-encoding an unedited schedule is the identity": "theorem",
-            "commit payload = index, switch, parameter + 7x48 bitmap, Sunday first, = received bitmap with exactly the edits applied": "theorem",
+            "commit payload = index, switch, parameter + 7x48 bitmap, Sunday first, = received bitmap with exactly the edits applied (serialised before any later edit; last response wins)": "theorem",
+            "the payload is the week AT COMMIT TIME for every history between commit() and the write": "partial: theorem commit_snapshot_partial (no edit of that schedule in between); full statement refuted (commit_snapshot_full_false), open finding F6",
+            "'changes nothing on error' for days of any length": "theorem for 48-slot days (set_never_index_error_48, set_error_inert); false for shorter hand-made days (set_partial_on_short_day), outside the statement",
             "40 distinct schedule names, switch/parameter names at positions 2i / 2i+1, 42-byte bitmap": "table",
             "parsing of '%H:%M' strings": "correspondence (strptime trusted)",
             "model = ScheduleDay / SchedulesStructure / EcoMAX._add_schedules / Schedule.commit": "correspondence",
         },
         assumptions=COMMON_ASSUME + [
-            "a schedule day has 48 slots (every day the decoder produces has; a shorter hand-made day would make list assignment raise IndexError mid-way, outside the property)",
+            "'an error changes nothing' is claimed for 48-slot days only (every day the decoder produces); on a shorter hand-made day list assignment raises IndexError after a partial edit -- modelled (set_partial_on_short_day) and compared with the implementation, not part of the statement",
+            "the write queue model assumes edits go through device.data['schedules'] (a Schedule object replaced by a later response is no longer edited)",
             "time arguments are strings (a non-string makes strptime raise TypeError, outside the property)",
         ],
         timeout={"quick": 300, "thorough": 1500},
